@@ -2,6 +2,7 @@ package main
 
 import (
 	"fmt"
+	"go/token"
 	"go/types"
 	"strings"
 
@@ -255,4 +256,206 @@ func ruleR17_14(w *World, r *Report) {
 func isNumericType(t types.Type) bool {
 	b, ok := t.Underlying().(*types.Basic)
 	return ok && b.Info()&types.IsNumeric != 0
+}
+
+// R07.6 the received prefix is counted over foreign operations only
+func ruleR07_6(w *World, r *Report) {
+	u := w.Client()
+	r.Rule("R07.6", "excludeDuplicatedOperations cuts the already-received prefix, whose length comes from checkpoint differences that do not count the replica's own operations, from the list that no longer holds the replica's own operations: the list filtered by origin is stored into the pack before the pack's operations are resliced", 1)
+	fn := u.Fn(pDatatypes, "WiredDatatype", "excludeDuplicatedOperations")
+	if fn == nil {
+		r.Lost("WiredDatatype.excludeDuplicatedOperations")
+		return
+	}
+	var filtered []*ssa.Store
+	for _, st := range storesTo(fn, ".Operations") {
+		if canonName(st.Addr) != "$1.Operations" {
+			continue
+		}
+		if o := origins(st.Val); o.has("builtin:append") {
+			filtered = append(filtered, st)
+		}
+	}
+	var slices []*ssa.Slice
+	forEachInstr(fn, func(in ssa.Instruction) {
+		if sl, ok := in.(*ssa.Slice); ok && canonName(sl.X) == "$1.Operations" {
+			slices = append(slices, sl)
+		}
+	})
+	if len(slices) == 0 {
+		r.Lost("excludeDuplicatedOperations: reslicing of the pulled operations")
+		return
+	}
+	if len(filtered) == 0 {
+		// no filter here: then the log query must leave the requester's operations out
+		serverSide := false
+		if us := w.Server(); us != nil {
+			if fd, _ := us.DeclOf(pMongo, "MongoCollections", "GetOperations"); fd != nil {
+				for k := range filterClauses(nil, fd.Body) {
+					if strings.Contains(strings.ToLower(k), "cuid") {
+						serverSide = true
+					}
+				}
+			}
+		}
+		r.Check(serverSide, "excludeDuplicatedOperations/prefix counted over foreign operations", u.Pos(slices[0].Pos()), "the pull query leaves the requester's operations out", "the pack's operations are resliced by a count of foreign operations although the replica's own operations were not removed from them first (no list filtered by origin is stored into the pack in this function, and the pull query does not constrain the origin)")
+		return
+	}
+	for _, sl := range slices {
+		good := false
+		for _, st := range filtered {
+			if instrDominatesCross(st, sl) {
+				good = true
+			}
+		}
+		r.Check(good, "excludeDuplicatedOperations/prefix counted over foreign operations", u.Pos(sl.Pos()), "the filtered list is stored before the reslicing", "the pack's operations are resliced before the replica's own operations were removed from them: the length of the received prefix is a count of foreign operations (checkpoint differences subtract the own ones), so after a lost response - own operations in the pulled log - the cut falls one foreign operation too late and that operation is never applied")
+	}
+}
+
+// R12.11 the release of a redis lock does not depend on the request
+func ruleR12_11(w *World, r *Report) {
+	u := w.Server()
+	if u == nil {
+		return
+	}
+	r.Rule("R12.11", "RedisLock releases its redsync mutex without the request's context (Unlock(), or UnlockContext with a context of its own): redis refuses a command on a context that is done, so a release bound to the request would leave the lock taken - until it expires - exactly when the request was cancelled or ran out of time", 2)
+	n := 0
+	for _, fn := range u.ordaFuncs(func(p string) bool { return p == pSUtils }) {
+		root := flatRoot(fn)
+		if root == nil || recvNameOfFn(root) != "RedisLock" {
+			continue
+		}
+		for _, c := range ownCallsIn(fn) {
+			cal := staticCallee(c)
+			if cal == nil || cal.Pkg == nil || !strings.Contains(cal.Pkg.Pkg.Path(), "go-redsync/redsync") {
+				continue
+			}
+			switch cal.Name() {
+			case "Unlock":
+				n++
+				r.OK(fnName(root)+"/release without the request's context", u.Pos(c.Pos()), "Unlock()")
+			case "UnlockContext":
+				n++
+				_, args := recvAndArgs(c)
+				bound := len(args) == 0
+				if !bound {
+					o := origins(args[0])
+					bound = o.has("field:RedisLock.ctx") || o.hasPrefix("param:")
+				}
+				r.Check(!bound, fnName(root)+"/release without the request's context", u.Pos(c.Pos()), "a context of its own", "the redis lock is released with the lock's request context: when that request was cancelled or its deadline passed, redis refuses the delete command, the key stays until it expires (10 s) and every other sync of the datatype fails to lock meanwhile")
+			}
+		}
+	}
+	if n < 2 {
+		r.Lost(fmt.Sprintf("releases of the redsync mutex in RedisLock (found %d)", n))
+	}
+}
+
+// R12.12 a configured redis is never replaced by process-local locks
+func ruleR12_12(w *World, r *Report) {
+	u := w.Server()
+	if u == nil {
+		return
+	}
+	r.Rule("R12.12", "redis.New hands out the client without a redsync instance (the one whose GetLock gives process-local locks) only when no redis is configured (conf == nil or no addresses): with a redis configured, several servers share the data, and a server that silently fell back to local locks would not exclude the others", 1)
+	fn := u.Fn(pRedis, "", "New")
+	if fn == nil || len(fn.Params) < 2 {
+		r.Lost("redis.New")
+		return
+	}
+	conf := fn.Params[1]
+	n := 0
+	forEachOwnInstr(fn, func(in ssa.Instruction) {
+		ret, ok := in.(*ssa.Return)
+		if !ok || len(ret.Results) != 2 {
+			return
+		}
+		if k, isK := ret.Results[1].(*ssa.Const); !isK || k.Value != nil {
+			return // an error is returned
+		}
+		al, ok := ret.Results[0].(*ssa.Alloc)
+		if !ok {
+			return
+		}
+		hasRS := false
+		if refs := al.Referrers(); refs != nil {
+			for _, rf := range *refs {
+				fa, isFA := rf.(*ssa.FieldAddr)
+				if !isFA || fieldName(fa.X.Type(), fa.Field) != "Client.rs" || fa.Referrers() == nil {
+					continue
+				}
+				for _, r2 := range *fa.Referrers() {
+					if st, isSt := r2.(*ssa.Store); isSt && st.Addr == ssa.Value(fa) {
+						if k, isK := st.Val.(*ssa.Const); !isK || k.Value != nil {
+							hasRS = true
+						}
+					}
+				}
+			}
+		}
+		if hasRS {
+			return
+		}
+		n++
+		paths, okp := reachingLitsOwn(fn, nil, ret)
+		good := okp && len(paths) > 0
+		for _, p := range paths {
+			unconfigured := false
+			for _, l := range p {
+				if l.Kind != "cmp" || l.Op != token.EQL {
+					continue
+				}
+				x, y := l.X, l.Y
+				if k, isK := x.(*ssa.Const); isK && k.Value == nil {
+					x, y = y, x
+				}
+				if k, isK := y.(*ssa.Const); !isK || k.Value != nil {
+					continue
+				}
+				if x == ssa.Value(conf) {
+					unconfigured = true
+				}
+				if un, isUn := x.(*ssa.UnOp); isUn {
+					if fa, isFA := un.X.(*ssa.FieldAddr); isFA && fa.X == ssa.Value(conf) && strings.HasSuffix(fieldName(fa.X.Type(), fa.Field), ".Addrs") {
+						unconfigured = true
+					}
+				}
+			}
+			good = good && unconfigured
+		}
+		r.Check(good, "redis.New/local locks only without a configured redis", u.Pos(ret.Pos()), "returned only under conf == nil || conf.Addrs == nil", "the client without a redsync instance is also returned although a redis is configured: from then on this server takes process-local locks while the other servers lock in redis, and two servers update the snapshot and the log of one datatype at the same time")
+	})
+	if n == 0 {
+		r.Lost("redis.New: the return of the client without redsync")
+	}
+}
+
+// R09.17 taking a rollback point is total
+func ruleR09_17(w *World, r *Report) {
+	u := w.Client()
+	r.Rule("R09.17", "ResetTransaction returns without error only after it has stored the snapshot, the meta and the emptied operation list of the new rollback point (no early success: the point taken when a replica subscribes must replace the one taken before, whatever was executed in between)", 3)
+	fn := u.Fn(pDatatypes, "TransactionDatatype", "ResetTransaction")
+	if fn == nil {
+		r.Lost("TransactionDatatype.ResetTransaction")
+		return
+	}
+	for _, field := range []string{"rollbackSnapshot", "rollbackMeta", "rollbackOps"} {
+		barrier := map[ssa.Instruction]bool{}
+		for _, st := range storesTo(fn, "."+field) {
+			barrier[st] = true
+		}
+		if len(barrier) == 0 {
+			r.Lost("ResetTransaction: the store into " + field)
+			continue
+		}
+		bad := ""
+		for _, ret := range exitsWithout(fn, barrier) {
+			if len(ret.Results) == 1 {
+				if k, isK := ret.Results[0].(*ssa.Const); isK && k.Value == nil {
+					bad = u.Pos(ret.Pos())
+				}
+			}
+		}
+		r.Check(bad == "", "TransactionDatatype.ResetTransaction/"+field+" stored before success", u.Pos(fn.Pos()), "every success exit follows the store", "ResetTransaction returns nil at "+bad+" without storing "+field+": the rollback point keeps what it held before (for a new subscriber the identifiers it had before subscribing), and the next failed transaction restores that")
+	}
 }
